@@ -120,6 +120,10 @@ def make_vector_arrays(data, ndim):
                     rawkey = key[:cut] + key[ind + 1 :]
                     if len(rawkey) == 0:
                         rawkey = "position"
+                    if rawkey in data:
+                        # Another variable already bears the name of the vector:
+                        # keep the components as scalars instead of overwriting it
+                        continue
                     data[rawkey] = Vector(
                         **{components[c]: data[comp_list[c]] for c in range(ndim)}
                     )
